@@ -90,16 +90,18 @@ VARIABLES cfg,        \* [mode, qserial, barrier, gate]: fixed per execution
           testFalse,  \* a testcancel returned non-zero although nobody cancelled
           waitedOK,   \* a wait returned 0 (client contract: no further wait)
           lastTest,   \* per thread: result of the last testcancel (-1 none)
+          wres,       \* [rc, tmo] of the current / last wait (one wait at a time): rc -1 undecided, 0, 1 = timed out;
+                      \*   tmo = its timeout step has been taken
           crashed     \* "none" or the DISPATCH_CLIENT_CRASH reached
 
 blkv  == <<af, performed, dq, dthr, qref>>
 grpv  == <<gcnt, ggen, nst, nsub>>
 envv  == <<gate, ug>>
 cntv  == <<nsubm, ncancel, ntest, nwait, nperf>>
-ghov  == <<completed, cancelled, bodyStarts, bodyEnds, testBad, testFalse, waitedOK, lastTest, crashed>>
+ghov  == <<completed, cancelled, bodyStarts, bodyEnds, testBad, testFalse, waitedOK, lastTest, wres, crashed>>
 vars  == <<cfg, blkv, grpv, envv, pc, lv, inv, cntv, ghov>>
 
-L0 == [kind |-> "now", rc |-> -1, tmo |-> FALSE, bq |-> 0, bth |-> NoThr, perf |-> 0, gen |-> 0,
+L0 == [kind |-> "now", bq |-> 0, bth |-> NoThr, perf |-> 0, gen |-> 0,
        n |-> 0, k |-> 0, must |-> FALSE]
 I0 == [api |-> "none", pc |-> "none", afl |-> 0, thr |-> NoThr, cbs |-> FALSE, ran |-> FALSE, skip |-> FALSE]
 
@@ -116,16 +118,15 @@ InitWith(c) ==
     /\ completed = FALSE /\ cancelled = FALSE /\ bodyStarts = 0 /\ bodyEnds = 0
     /\ testBad = FALSE /\ testFalse = FALSE /\ waitedOK = FALSE
     /\ lastTest = [t \in Threads |-> -1]
+    /\ wres = [rc |-> -1, tmo |-> FALSE]
     /\ crashed = "none"
 
 Init == \E c \in [mode : Modes, qserial : QSerials, barrier : Barriers, gate : Gates] : InitWith(c)
 
 Go(t, l) == pc' = [pc EXCEPT ![t] = l]
 Set(t, r) == lv' = [lv EXCEPT ![t] = r]
-\* on return the locals are dead except the results read by the properties
-Clean(r) == [L0 EXCEPT !.rc = r.rc, !.tmo = r.tmo]
-Ret(t) == Go(t, "idle") /\ Set(t, Clean(lv[t]))
-RetWith(t, r) == Go(t, "idle") /\ Set(t, Clean(r))
+\* on return the locals are dead
+Ret(t) == Go(t, "idle") /\ Set(t, L0)
 SetInv(k, r) == inv' = [inv EXCEPT ![k] = r]
 Crash(what) == crashed' = IF crashed = "none" THEN what ELSE crashed
 
@@ -164,7 +165,7 @@ CallTest(t) ==
     /\ Set(t, [lv[t] EXCEPT !.must = cancelled])
     /\ lastTest' = [lastTest EXCEPT ![t] = -1]
     /\ UNCHANGED <<cfg, blkv, grpv, envv, inv, nsubm, ncancel, nwait, nperf,
-                   completed, cancelled, bodyStarts, bodyEnds, testBad, testFalse, waitedOK, crashed>>
+                   completed, cancelled, bodyStarts, bodyEnds, testBad, testFalse, waitedOK, wres, crashed>>
 
 \* dispatch/block.h: waited on at most once (a timed-out wait does not count), never from two threads
 \* at once, only a block object that is executed once.  An untimed wait is only issued once completion
@@ -174,8 +175,10 @@ CallWait(t, k) ==
     /\ \A u \in Threads : ~InWait(u)
     /\ k = "forever" => nsubm >= 1
     /\ nwait' = nwait + 1 /\ Go(t, "w_or")
-    /\ Set(t, [lv[t] EXCEPT !.kind = k, !.rc = -1, !.tmo = FALSE])
-    /\ UNCHANGED <<cfg, blkv, grpv, envv, inv, nsubm, ncancel, ntest, nperf, ghov>>
+    /\ Set(t, [lv[t] EXCEPT !.kind = k])
+    /\ wres' = [rc |-> -1, tmo |-> FALSE]
+    /\ UNCHANGED <<cfg, blkv, grpv, envv, inv, nsubm, ncancel, ntest, nperf,
+                   completed, cancelled, bodyStarts, bodyEnds, testBad, testFalse, waitedOK, lastTest, crashed>>
 
 CallNotify(t, n) ==
     /\ pc[t] = "idle" /\ cfg.mode = "obs" /\ nst[n] = "none"
@@ -191,7 +194,7 @@ C_Or(t) ==
     /\ cancelled' = TRUE
     /\ Ret(t)
     /\ UNCHANGED <<cfg, performed, dq, dthr, qref, grpv, envv, inv, cntv,
-                   completed, bodyStarts, bodyEnds, testBad, testFalse, waitedOK, lastTest, crashed>>
+                   completed, bodyStarts, bodyEnds, testBad, testFalse, waitedOK, lastTest, wres, crashed>>
 
 (* ------------------------------- dispatch_block_testcancel ------------------------------- *)
 \* return (bool)(dbpd->dbpd_atomic_flags & DBF_CANCELED);   (plain read)
@@ -202,7 +205,7 @@ T_Read(t) ==
        /\ testBad' = (testBad \/ (lv[t].must /\ r = 0))
        /\ testFalse' = (testFalse \/ (r = 1 /\ ~cancelled))
     /\ Ret(t)
-    /\ UNCHANGED <<cfg, blkv, grpv, envv, inv, cntv, completed, cancelled, bodyStarts, bodyEnds, waitedOK, crashed>>
+    /\ UNCHANGED <<cfg, blkv, grpv, envv, inv, cntv, completed, cancelled, bodyStarts, bodyEnds, waitedOK, wres, crashed>>
 
 (* ----------------------------------- dispatch_block_wait ----------------------------------- *)
 \* flags = os_atomic_or_orig2o(dbpd, dbpd_atomic_flags, DBF_WAITING, relaxed);
@@ -213,7 +216,7 @@ W_Or(t) ==
     /\ IF Has(af, WAITED) \/ Has(af, WAITING) THEN Crash("waited_more_than_once") ELSE crashed' = crashed
     /\ Go(t, "w_xchg")
     /\ UNCHANGED <<cfg, performed, dq, dthr, qref, grpv, envv, lv, inv, cntv,
-                   completed, cancelled, bodyStarts, bodyEnds, testBad, testFalse, waitedOK, lastTest>>
+                   completed, cancelled, bodyStarts, bodyEnds, testBad, testFalse, waitedOK, lastTest, wres>>
 
 \* boost_dq = os_atomic_xchg2o(dbpd, dbpd_queue, NULL, relaxed); if (boost_dq) dx_wakeup(.., CONSUME_2)
 W_Xchg(t) ==
@@ -236,39 +239,42 @@ W_LoadPerf(t) ==
          THEN Crash("run_more_than_once_and_waited") ELSE crashed' = crashed
     /\ Set(t, [lv[t] EXCEPT !.perf = performed]) /\ Go(t, "w_gcheck")
     /\ UNCHANGED <<cfg, blkv, grpv, envv, inv, cntv,
-                   completed, cancelled, bodyStarts, bodyEnds, testBad, testFalse, waitedOK, lastTest>>
+                   completed, cancelled, bodyStarts, bodyEnds, testBad, testFalse, waitedOK, lastTest, wres>>
 
 \* dispatch_group_wait(dbpd->dbpd_group, timeout), abstract (C07): count zero => 0 at once;
 \* timeout NOW => timed out at once; otherwise sleep until the generation changes or the timeout fires
 W_GCheck(t) ==
     /\ pc[t] = "w_gcheck"
     /\ IF gcnt = 0 \/ Mut = "wait_no_group"
-         THEN Set(t, [lv[t] EXCEPT !.rc = 0]) /\ Go(t, "w_fin")
+         THEN wres' = [wres EXCEPT !.rc = 0] /\ lv' = lv /\ Go(t, "w_fin")
          ELSE IF lv[t].kind = "now"
-           THEN Set(t, [lv[t] EXCEPT !.rc = 1, !.tmo = TRUE]) /\ Go(t, "w_fin")
-           ELSE Set(t, [lv[t] EXCEPT !.gen = ggen]) /\ Go(t, "w_sleep")
-    /\ UNCHANGED <<cfg, blkv, grpv, envv, inv, cntv, ghov>>
+           THEN wres' = [rc |-> 1, tmo |-> TRUE] /\ lv' = lv /\ Go(t, "w_fin")
+           ELSE Set(t, [lv[t] EXCEPT !.gen = ggen]) /\ wres' = wres /\ Go(t, "w_sleep")
+    /\ UNCHANGED <<cfg, blkv, grpv, envv, inv, cntv,
+                   completed, cancelled, bodyStarts, bodyEnds, testBad, testFalse, waitedOK, lastTest, crashed>>
 W_Wake(t) ==
     /\ pc[t] = "w_sleep" /\ ggen # lv[t].gen
-    /\ Set(t, [lv[t] EXCEPT !.rc = 0]) /\ Go(t, "w_fin")
-    /\ UNCHANGED <<cfg, blkv, grpv, envv, inv, cntv, ghov>>
+    /\ wres' = [wres EXCEPT !.rc = 0] /\ Go(t, "w_fin")
+    /\ UNCHANGED <<cfg, blkv, grpv, envv, lv, inv, cntv,
+                   completed, cancelled, bodyStarts, bodyEnds, testBad, testFalse, waitedOK, lastTest, crashed>>
 \* the full timeout elapsed (ETIMEDOUT); the group re-reads the generation before giving up
 W_Timeout(t) ==
     /\ pc[t] = "w_sleep" /\ lv[t].kind = "timed"
-    /\ Set(t, [lv[t] EXCEPT !.tmo = TRUE, !.rc = IF ggen # lv[t].gen THEN 0 ELSE 1]) /\ Go(t, "w_fin")
-    /\ UNCHANGED <<cfg, blkv, grpv, envv, inv, cntv, ghov>>
+    /\ wres' = [rc |-> IF ggen # lv[t].gen THEN 0 ELSE 1, tmo |-> TRUE] /\ Go(t, "w_fin")
+    /\ UNCHANGED <<cfg, blkv, grpv, envv, lv, inv, cntv,
+                   completed, cancelled, bodyStarts, bodyEnds, testBad, testFalse, waitedOK, lastTest, crashed>>
 
 \* if (ret) os_atomic_and2o(dbpd, dbpd_atomic_flags, ~DBF_WAITING, relaxed);
 \* else     os_atomic_or2o(dbpd, dbpd_atomic_flags, DBF_WAITED, relaxed);
 W_Fin(t) ==
     /\ pc[t] = "w_fin"
-    /\ af' = IF lv[t].rc # 0
+    /\ af' = IF wres.rc # 0
                THEN (IF Mut = "timeout_clobber" THEN 0 ELSE Clr(af, WAITING))
                ELSE Or(af, WAITED)
-    /\ waitedOK' = (waitedOK \/ lv[t].rc = 0)
+    /\ waitedOK' = (waitedOK \/ wres.rc = 0)
     /\ Ret(t)
     /\ UNCHANGED <<cfg, performed, dq, dthr, qref, grpv, envv, inv, cntv,
-                   completed, cancelled, bodyStarts, bodyEnds, testBad, testFalse, lastTest, crashed>>
+                   completed, cancelled, bodyStarts, bodyEnds, testBad, testFalse, lastTest, wres, crashed>>
 
 (* ---------------------------------- dispatch_block_notify ---------------------------------- *)
 \* int performed = os_atomic_load2o(dbpd, dbpd_performed, relaxed); if (performed > 1) CRASH
@@ -277,7 +283,7 @@ N_Load(t) ==
     /\ IF performed > 1 THEN Crash("run_more_than_once_and_observed") ELSE crashed' = crashed
     /\ Set(t, [lv[t] EXCEPT !.perf = performed]) /\ Go(t, "n_reg")
     /\ UNCHANGED <<cfg, blkv, grpv, envv, inv, cntv,
-                   completed, cancelled, bodyStarts, bodyEnds, testBad, testFalse, waitedOK, lastTest>>
+                   completed, cancelled, bodyStarts, bodyEnds, testBad, testFalse, waitedOK, lastTest, wres>>
 \* dispatch_group_notify(dbpd->dbpd_group, queue, notification_block), abstract (C07):
 \* submitted at once if the count is zero, else when it becomes zero
 N_Reg(t) ==
@@ -352,7 +358,7 @@ I_Read(k) ==
           /\ completed' = (completed \/ canc)       \* a skipped execution is complete at once
     /\ IF Has(af, WAITED) THEN Crash("run_more_than_once_and_waited") ELSE crashed' = crashed
     /\ UNCHANGED <<cfg, blkv, grpv, envv, pc, lv, cntv,
-                   cancelled, bodyStarts, bodyEnds, testBad, testFalse, waitedOK, lastTest>>
+                   cancelled, bodyStarts, bodyEnds, testBad, testFalse, waitedOK, lastTest, wres>>
 
 \* dbpd->dbpd_thread = _dispatch_tid_self();  (plain write, _dispatch_block_invoke_direct only)
 I_SetThr(k) ==
@@ -367,14 +373,14 @@ I_BodyStart(k, u) ==
     /\ SetInv(k, [inv[k] EXCEPT !.pc = "i_bodyrun", !.ran = TRUE, !.thr = u])
     /\ bodyStarts' = bodyStarts + 1
     /\ UNCHANGED <<cfg, blkv, grpv, envv, pc, lv, cntv,
-                   completed, cancelled, bodyEnds, testBad, testFalse, waitedOK, lastTest, crashed>>
+                   completed, cancelled, bodyEnds, testBad, testFalse, waitedOK, lastTest, wres, crashed>>
 I_BodyEnd(k, u) ==
     /\ inv[k].pc = "i_bodyrun" /\ Exec(k, u)
     /\ SetInv(k, [inv[k] EXCEPT !.pc = AfterBody(inv[k])])
     /\ bodyEnds' = bodyEnds + 1
     /\ completed' = TRUE
     /\ UNCHANGED <<cfg, blkv, grpv, envv, pc, lv, cntv,
-                   cancelled, bodyStarts, testBad, testFalse, waitedOK, lastTest, crashed>>
+                   cancelled, bodyStarts, testBad, testFalse, waitedOK, lastTest, wres, crashed>>
 
 \* if ((atomic_flags & DBF_PERFORM) == 0) if (os_atomic_inc2o(dbpd, dbpd_performed, relaxed) == 1) ...
 I_Inc(k, u) ==
@@ -398,7 +404,7 @@ I_Leave(k, u) ==
                    ELSE UNCHANGED <<ggen, nst, nsub>>
     /\ SetInv(k, [inv[k] EXCEPT !.pc = IF Fine THEN "i_wake" ELSE AfterLeave(inv[k])])
     /\ UNCHANGED <<cfg, blkv, envv, pc, lv, cntv,
-                   completed, cancelled, bodyStarts, bodyEnds, testBad, testFalse, waitedOK, lastTest>>
+                   completed, cancelled, bodyStarts, bodyEnds, testBad, testFalse, waitedOK, lastTest, wres>>
 \* _dispatch_group_wake finished (notifications pushed, futex wake done)
 I_WakeDone(k) ==
     /\ inv[k].pc = "i_wake"
@@ -487,9 +493,9 @@ TypeOK == /\ af \in 0..15 /\ performed \in Nat /\ dq \in {0, 1}
 NoCrash == crashed = "none"
 
 \* dispatch_block_wait returns zero only after the first (or skipped) execution has completed
-WaitZeroOnlyAfterCompletion == \A t \in Threads : lv[t].rc = 0 => completed
+WaitZeroOnlyAfterCompletion == wres.rc = 0 => completed
 \* ... and non-zero only after the full timeout step
-TimeoutOnlyAfterTimeout == \A t \in Threads : lv[t].rc = 1 => lv[t].tmo
+TimeoutOnlyAfterTimeout == wres.rc = 1 => wres.tmo
 \* each notification is submitted exactly once, not before that completion
 NotifyNotEarly == \A n \in NIds : nst[n] \in {"fired", "ran"} => completed
 NotifyOnce == \A n \in NIds : nsub[n] <= 1 /\ (nst[n] \in {"fired", "ran"} <=> nsub[n] = 1)
